@@ -184,7 +184,7 @@ PLAN = {
             "assumptions": CRASH_ASSUMPTIONS + ["faults are injected on the synchronous I/O path (hook H2 disables io_uring) and, in a second pass, on the io_uring path (SQEs completed with EBADF, io_uring_enter failing with EINTR/EIO), with one flush worker so the I/O calls of a workload can be numbered; each plan runs in its own process because the store keeps a process-wide registry of poisoned files", "read failures are outside the property"]},
     "C18": {"level": "exploration", "engines": _live("live", 60, 3600), "min_nontrivial": 20,
             "assumptions": ["termination is judged by bounded progress: every scenario must finish; a watchdog expiry counts as a violation only with a stall signature (no thread consumed CPU for 2 s, none runnable), otherwise it is inconclusive", "every other engine's child/worker runs under the driver's watchdog as well"]},
-    "C19": {"level": "exploration", "engines": _live("wb", 48, 1440), "min_nontrivial": 12,
+    "C19": {"level": "exploration", "engines": _live("wb", 56, 1680), "min_nontrivial": 12,
             "assumptions": ["'bounded' is judged logically (pending-work accessor reaches zero, durable prefix equals the accepted state); wall-clock only fails a run after 10 s without drain AND 5 s without device activity; drain times are reported as a distribution"] + CRASH_ASSUMPTIONS[:2]},
     "C07": {"level": "exploration", "engines": LIN, "min_nontrivial": 500, "assumptions": CONC_ASSUMPTIONS},
     "C08": {"level": "exploration", "engines": REUSE, "min_nontrivial": 20, "assumptions": CONC_ASSUMPTIONS + ["one writer per key, so each key's writes form a sequence with recorded intervals; readers never modify"]},
